@@ -98,10 +98,11 @@ def run(chk):
         raise AnalysisError("recover_public_keys has no normal return")
     oklist = all(isinstance(v, VList) and s.heap_get(v.oid, "items") is not None and len(s.heap_get(v.oid, "items")) == 2 and all(isinstance(i, VObj) and i.cls.name == "Public_key" for i in s.heap_get(v.oid, "items")) for v, s in sts)
     chk.ob("R14.3", "recover_public_keys returns a list of exactly two Public_key objects", oklist, loc=q3, key="C14|R14.3|two", detail="the result is not a two-element list of Public_key objects")
-    pk = [c for c in it.watch_results["ecdsa:Public_key.__init__"] if c[0] == q3]
+    inq3 = lambda c: c[0] == q3 or c[0].startswith(q3 + ".<locals>.")          # closures of the function count as the function
+    pk = [c for c in it.watch_results["ecdsa:Public_key.__init__"] if inq3(c)]
     okv = len(pk) >= 2 and all(len(c[2]) == 3 and "verify" not in c[3] and term_of(c[2][1]) == ("param", "generator") for c in pk)
     chk.ob("R14.3", "both candidates are Public_key(generator, Q) with validation on (default)", okv, loc=q3, key="C14|R14.3|validated", detail="a candidate is wrapped with validation off or with another generator")
-    pts = [c for c in it.watch_results["ellipticcurve:PointJacobi.__init__"] if c[0] == q3]
+    pts = [c for c in it.watch_results["ellipticcurve:PointJacobi.__init__"] if inq3(c)]
     okp = len(pts) >= 2
     ys = []
     r_t = ("attr", ("param", "self"), "r")
@@ -119,19 +120,19 @@ def run(chk):
     chk.ob("R14.3", "candidate points use x = r and a root of x^3 + a x + b modulo p", okp and okroot, loc=q3, key="C14|R14.3|points", detail="the curve points are not built on x = r with y from square_root_mod_prime(x^3 + a x + b, p)")
     # the two y values are negatives of each other modulo p: y2 = (-y1) % p
     okneg = False
-    by_site = {}
+    ys_ = {}
     for c in pts:
-        by_site.setdefault(c[1][1], []).append(c[2][3])
-    sites = sorted(by_site)
-    if len(sites) == 2 and len(by_site[sites[0]]) == len(by_site[sites[1]]):
-        okneg = True
-        for y1v, y2v in zip(by_site[sites[0]], by_site[sites[1]]):
-            if not (isinstance(y1v, VInt) and isinstance(y2v, VInt)):
-                okneg = False
-                continue
-            y1, y2 = y1v.lin, y2v.lin
-            t2 = y2.single_sym()
-            okneg &= bool(t2) and t2[0] == "mod" and t2[1] == (-y1).key() and t2[2] == Lin.sym(P).key()
+        if len(c[2]) > 3 and isinstance(c[2][3], VInt):
+            ys_.setdefault(c[2][3].lin.key(), c[2][3].lin)
+    Pl = Lin.sym(P)
+
+    def neg_of(y2, y1):
+        t2 = y2.single_sym()
+        return bool(t2) and t2[0] == "mod" and t2[2] == Pl.key() and t2[1] in ((-y1).key(), (Pl - y1).key())
+    negs = {k2 for k2, y2 in ys_.items() if any(neg_of(y2, y1) for k1, y1 in ys_.items() if k1 != k2)}
+    bases = {k1 for k1, y1 in ys_.items() if k1 not in negs}
+    # every root used has its negation used too, and nothing else is used
+    okneg = bool(bases) and len(bases) == len(negs) and all(any(neg_of(ys_[k2], ys_[k1]) for k2 in negs) for k1 in bases)
     chk.ob("R14.3", "the second point uses -y mod p of the first", okneg, loc=q3, key="C14|R14.3|negation", detail="the two candidate points do not use the two roots y and -y mod p")
     # Q = r^-1 * (s*R + (-e % n) * G)   (structure by AST: both candidate expressions identical up to R1/R2)
     from sa import pat
@@ -146,11 +147,18 @@ def run(chk):
     for c_ in ast.walk(f3.node):
         if isinstance(c_, ast.Call) and norm_text(c_.func) == "Public_key" and len(c_.args) >= 2:
             ms.append(pat.any_of(c_.args[1], forms, defs=D))
-    okq = len(ms) == 2 and all(m_ is not None for m_ in ms)
+    okq = len(ms) in (1, 2) and all(m_ is not None for m_ in ms)
     if okq:
-        r1, r2 = ms[0]["X_R"], ms[1]["X_R"]
-        okq = norm_text(r1) != norm_text(r2)
-        for r_ in (r1, r2):
-            e_ = D.get(r_.id) if isinstance(r_, ast.Name) else r_
+        # the R of each candidate is a PointJacobi(...) construction (named or inline); with one
+        # Public_key site (a local function applied to both roots) the two constructions are the two
+        # call contexts examined above through the interpreter
+        Dn = dict(D)
+        for fn_ in ast.walk(f3.node):
+            if isinstance(fn_, ast.FunctionDef) and fn_ is not f3.node:
+                Dn.update(pat.defs_of(fn_))
+        rs_ = [m_["X_R"] for m_ in ms]
+        okq = len({norm_text(r_) for r_ in rs_}) == len(rs_) and (len(ms) == 2 or okneg)
+        for r_ in rs_:
+            e_ = Dn.get(r_.id) if isinstance(r_, ast.Name) else r_
             okq &= isinstance(e_, ast.Call) and norm_text(e_.func).endswith("PointJacobi")
     chk.ob("R14.3", "both candidates are r^-1 * (s*R + (-e mod n)*G)", okq, loc=q3, key="C14|R14.3|formula", detail="candidate expressions differ from inverse_mod(r, n) * (s * R + (-e % n) * generator)")
